@@ -151,8 +151,11 @@ func parserRequestHeader(c *Client, req *Request) error {
 		req.RawRequest.Header.SetUserAgent(req.userAgent)
 	}
 
-	// Set Referer header.
-	req.RawRequest.Header.SetReferer(c.referer)
+	// Set Referer header (only a configured referer: an empty one would overwrite a Referer
+	// given through the header setters and put an empty Referer header on the wire).
+	if c.referer != "" {
+		req.RawRequest.Header.SetReferer(c.referer)
+	}
 	if req.referer != "" {
 		req.RawRequest.Header.SetReferer(req.referer)
 	}
